@@ -307,6 +307,21 @@ def gen_raw_case(rng):
     return {'css': None, 'raw': raw, 'use_ua': False, 'queries': queries, 'odd': True}
 
 
+# --------------------------------------------------------------------------------- corpus
+
+def load_corpus(kind):
+    """minimised regression cases (the fixed findings), evaluated first in their stream."""
+    d = os.path.join(common.VERIF, 'corpus', 'C15')
+    out = []
+    if os.path.isdir(d):
+        for f in sorted(os.listdir(d)):
+            if f.endswith('.json'):
+                c = json.load(open(os.path.join(d, f)))
+                if c.get('kind') == kind:
+                    out.append(c)
+    return out
+
+
 # --------------------------------------------------------------------------------- stream driver
 
 def run_style_cases(run, stream, tag, cases, base_entries, with_spec, per_file):
@@ -596,8 +611,8 @@ def scope_printed(root, texts):
 
 def scope_stream(run, rng, thorough):
     import time
-    n = 1500 if thorough else 220
-    docs = [gen_scope_node(rng, 0, [0], False) for _ in range(n)]
+    n = 1500 if thorough else 300
+    docs = [c['doc'] for c in load_corpus('scope')] + [gen_scope_node(rng, 0, [0], False) for _ in range(n)]
     cases = [{'html': scope_html(d)} for d in docs]
     t0 = time.time()
     outs = common.run_impl('impl_c15', 'render_texts', cases, limit=60)
@@ -724,7 +739,7 @@ def judge_toc(case, o):
 
 def toc_stream(run, rng, thorough):
     import time
-    cases = [gen_toc(rng) for _ in range(400 if thorough else 60)]
+    cases = [gen_toc(rng) for _ in range(400 if thorough else 80)]
     t0 = time.time()
     outs = common.run_impl('impl_c15', 'render_toc', cases, limit=120, chunksize=1)
     outcomes = {'ok': 0, 'not-converged': 0, 'wrong': 0, 'malformed': 0}
@@ -789,11 +804,12 @@ def check(run):
                          + ('exhaustively' if thorough else '(-50..130 dense, boundaries, 120 random)')
                          + ', render_value and render_marker called directly; strings compared with the model and the spec')
     # ---- stream b: random @counter-style rules through the real parser + validators; anonymous styles; raw dicts
-    ncss = 1200 if thorough else 150
-    cases = [gen_css_case(rng, odd=(i % 3 == 2)) for i in range(ncss)]
+    ncss = 1200 if thorough else 200
+    cases = [{'css': c['css'], 'use_ua': True, 'queries': c['queries'], 'odd': False} for c in load_corpus('css')]
+    cases += [gen_css_case(rng, odd=(i % 3 == 2)) for i in range(ncss)]
     cases += [gen_anon_case(rng) for _ in range(ncss // 10)]
     n = run_style_cases(run, 'random-counter-style', 'c15cs', cases, ua, True, per_file=len(cases) // 16 + 1)
-    run.count('random-counter-style', n, [c['css'] for c in cases], samples=[cases[0]['css'], cases[2]['css']])
+    run.count('random-counter-style', n, [c['css'] for c in cases], samples=[cases[-20]['css'], cases[-22]['css']])
     run.stream_info('random-counter-style',
                     rule='1-5 @counter-style rules per case (all systems, extends chains and cycles, range lists, '
                          'negative, pad, prefix/suffix, fallback chains and cycles; every third case also odd names and '
